@@ -255,7 +255,10 @@ def _segwit(c, prog):
     if ok_struct:
         z_prev = [i for i in zs if main[i][3] == fs([ACPT])]
         z_join = [i for i in zs if main[i][3] == fs()]
-        if len(z_prev) == 2 and len(z_join) == 2:
+        have = all(any(pred(r[0]) for r in main) for pred in (lambda x: x == "SEGWIT.prevouts", lambda x: x == "SEGWIT.issuances", lambda x: x.startswith("hash_types::Sighash::Sighash{")))
+        if not have:
+            c.inst("R2.segwit.slots", "expected hash slots present", False, "prevouts/issuances/single-output rows missing: %s" % [r[0][:60] for r in main], f.where(), f.path)
+        elif len(z_prev) == 2 and len(z_join) == 2:
             prev_i = [i for i, r in enumerate(main) if r[0] == "SEGWIT.prevouts"][0]
             iss_i = [i for i, r in enumerate(main) if r[0] == "SEGWIT.issuances"][0]
             sgl_i = [i for i, r in enumerate(main) if r[0].startswith("hash_types::Sighash::Sighash{")][0]
